@@ -289,6 +289,9 @@ func (w *worker) setState(c *Case, mutated []byte) error {
 	if err := w.writeBlock(c.Block, mutated); err != nil {
 		return err
 	}
+	// a previous case may have made the registry spill into a second segment file; every case starts
+	// from exactly one segment
+	_ = os.Remove(filepath.Join(w.base, table, table+"-2.reg"))
 	cp := cowPath(w.base, c.Block)
 	var data []byte
 	switch c.BackupKind {
@@ -425,10 +428,16 @@ func (w *worker) run(c *Case) {
 	if c.Backup != "valid-backup" {
 		rewritten := !bytes.Equal(after, mutated)
 		switch {
-		case uerr == nil && rewritten:
-			viol("update", "accepted-and-block-overwritten", map[string]any{"expected": "an error, block bytes untouched", "update_kind": c.UpdKind, "block_valid_afterwards": blockValid(after)})
 		case uerr == nil:
-			viol("update", "accepted-without-error", map[string]any{"update_kind": c.UpdKind})
+			// (when the damage hit the id bytes of the updated entry in a FULL block, the write goes to a new
+			// segment file and the damaged block stays as it is; otherwise the damaged block is rewritten
+			// with a fresh checksum - both are "accepted", the detail says which)
+			sub := "update_accepted_block_left_as_is"
+			if rewritten {
+				sub = "update_accepted_block_overwritten_with_fresh_checksum"
+			}
+			w.r.Count(sub, 1)
+			viol("update", "accepted-without-error", map[string]any{"expected": "an error, block bytes untouched", "update_kind": c.UpdKind, "block_rewritten": rewritten, "block_valid_afterwards": blockValid(after)})
 		case rewritten:
 			viol("update", "error-but-block-rewritten", map[string]any{"error": uerr.Error(), "update_kind": c.UpdKind})
 		default:
